@@ -198,7 +198,8 @@ def handleRotate (j : Json) : R Json := do
   let hi ← fldNat j "hi"
   let st := steps fs b
   pure (jObj [("steps", jArr (st.map encStep)), ("rotated", jBool (rotated fs b)),
-              ("states", jArr ((List.range (st.length + 1)).map (fun k => encState (crashState fs b k) hi)))])
+              ("states", jArr ((List.range (st.length + 1)).map (fun k => encState (crashState fs b k) hi))),
+              ("fails", jArr ((List.range st.length).map (fun k => encState (failState fs b k) hi)))])
 
 open Clem.LogRotate in
 def handleRotateMon (j : Json) : R Json := do
